@@ -25,7 +25,8 @@ RULE = ('cases = seeded data sets (few bytes .. hundreds of fragments; nested se
         'warning, failure, EventHandlingError} x 1..3 stores per association x 1..3 concurrent '
         'associations incl. the SAME instance UID, under seeded schedules; fault configuration: '
         'ENOSPC/EIO at the n-th write, RST, stalls; non-trivial = multi-fragment or concurrent; '
-        'distinct = distinct scheduler signatures')
+        'distinct = distinct scheduler signatures'
+        '; hot family (2-3 associations, line-level pre-emption with parking in the file-building functions); slow-receiver family (2-32 KiB of buffering, storing side stalled 6-45 s in mid-transfer)')
 ASSUMPTIONS = ['pydicom is trusted to encode/decode data sets at both ends (the byte-level '
                'comparison is independent of it)', 'under injected disk errors / RST a store may '
                'fail or stay unacknowledged, but an acknowledged one must be right and older '
